@@ -31,10 +31,18 @@ fn year_terms(y: i64) -> Vec<i64> {
   })
 }
 
+/// the same six term days, asked for with RAW indices that the constructor has to carry into the neighbouring year
+/// (winter solstice of y as term 24 of y-1, the summer terms as 11..15 + 24 of y-1, next winter solstice as term 24 of y)
+fn year_terms_raw(y: i64) -> Vec<i64> {
+  vec![term_day(y - 1, 24), term_day(y - 1, 24 + 11), term_day(y - 1, 24 + 12), term_day(y - 1, 24 + 13), term_day(y - 1, 24 + 15), term_day(y, 24)]
+}
+
 fn line(d: &SolarDay, first: bool, _p: Option<&SolarDay>) -> String {
   let (y, m, dd) = ymd(d);
   let j = jdn(d);
-  let yt = year_terms(y);
+  // on every third day the oracle's term days are constructed afresh with raw indices immediately before the getters
+  // are asked: constructing a term must leave no trace in what the series getters answer next
+  let yt = if j % 3 == 0 && y >= 3 { year_terms_raw(y) } else { year_terms(y) };
   let td = catch(|| d.get_term_day());
   let (ti, tj) = td.as_ref().map(|t| (t.get_solar_term().get_index() as i64, catch(|| jdn(&t.get_solar_term().get_julian_day().get_solar_day())).unwrap_or(-1))).unwrap_or((-1, -1));
   // the Jie that opens the month
